@@ -421,7 +421,13 @@ class Summariser:
             raise NotSummarisable('expression statement ' + norm(s)[:60])
         if isinstance(s, ast.Assign):
             if len(s.targets) != 1:
-                raise NotSummarisable('multiple assignment targets')
+                # a = b = expr: the value is computed once, then bound to the targets from left to right
+                self.fresh += 1
+                tmp = '_chain%d' % self.fresh
+                env = self.assign(ast.Name(id=tmp, ctx=ast.Store()), s.value, env)
+                for t in s.targets:
+                    env = self.assign(t, ast.Name(id=tmp, ctx=ast.Load()), env)
+                return env
             return self.assign(s.targets[0], s.value, env)
         if isinstance(s, ast.AugAssign):
             if type(s.op) not in BINOPS:
